@@ -53,6 +53,7 @@ type zC10Cfg struct {
 	homeBack   bool
 	symPayee   bool
 	symSize    bool
+	warm       bool // the LoadFromContent resolution reuses the loader of the Load resolution
 }
 
 const zSmallMax = 1000
@@ -94,9 +95,14 @@ func verifC10(cfg zC10Cfg) {
 		cycleKind: zzverif.Known(zClassCycleKind),
 		miscount:  zzverif.Known(zClassMiscount),
 	}
+	var l *Loader
 	for api := 0; api < 2; api++ {
-		l := NewLoader()
-		l.SetLimits(Limits{MaxFileSizeBytes: int64(maxSize), MaxIncludeDepth: limit})
+		// warm: the second resolution runs on the loader of the first one (its parse cache is
+		// filled): the verdicts must not depend on what an earlier resolution left behind
+		if api == 0 || !cfg.warm {
+			l = NewLoader()
+			l.SetLimits(Limits{MaxFileSizeBytes: int64(maxSize), MaxIncludeDepth: limit})
+		}
 		var res *ResolvedJournal
 		var errs []LoadError
 		if api == 0 {
@@ -165,11 +171,11 @@ func verifC10(cfg zC10Cfg) {
 // Pure graph shapes: every rooted include graph on n files with out-degree <= 2 up to renaming
 // (self-loops, cycles, diamonds, dangling targets), symbolic depth limit.
 func VerifC10Graph() {
-	verifC10(zC10Cfg{n: 3, extra0: []int{zkDangling}, extra1: []int{zkDangling}, canonical: true, symPayee: true})
+	verifC10(zC10Cfg{n: 3, extra0: []int{zkDangling}, extra1: []int{zkDangling}, canonical: true, symPayee: true, warm: true})
 }
 
 func VerifC10GraphFull() {
-	verifC10(zC10Cfg{n: 4, extra0: []int{zkDangling}, extra1: []int{zkDangling}, canonical: true, symPayee: true})
+	verifC10(zC10Cfg{n: 4, extra0: []int{zkDangling}, extra1: []int{zkDangling}, canonical: true, symPayee: true, warm: true})
 }
 
 // All forms of naming a file, any root.
